@@ -130,12 +130,18 @@ class HasCfgTestAttribute:
         return -1 if prev_sibling is None else ts_sibling_index(prev_sibling)
 
 
+def short_run(n):
+    """At most two siblings precede the item (enough for both deviations; keeps the refutation a finite unfolding --
+    the general statement for clean runs of any length is the contracts' ensures_documented_on_clean_runs)."""
+    return n is None or n.prev_sibling is None or n.prev_sibling.prev_sibling is None
+
+
 @lemma(props=["C17"], types=dict(function_node=TSNode), name="test-function-as-documented")
 def test_function_as_documented(function_node):
     """Property text: exempt test code is a call inside "a `#[test]` function" -- has_test_attribute must answer exactly
     that. Expected to fail (known finding C17-test-attr-function): substring test on the attribute text, and the
     attribute run is cut by a comment. Adjusted obligation: has_test_attribute/post.ensures_documented_on_clean_runs."""
-    if function_node is None:
+    if function_node is None or not short_run(function_node.prev_sibling):
         return True
     return call(C + "has_test_attribute", function_node) == doc_has_test_attr(function_node.prev_sibling)
 
@@ -143,7 +149,7 @@ def test_function_as_documented(function_node):
 @lemma(props=["C17"], types=dict(mod_node=TSNode), name="test-module-as-documented")
 def test_module_as_documented(mod_node):
     """Property text: "a `#[cfg(test)]` module". Expected to fail (known finding C17-test-attr-module)."""
-    if mod_node is None:
+    if mod_node is None or not short_run(mod_node.prev_sibling):
         return True
     return call(C + "has_cfg_test_attribute", mod_node) == doc_has_cfg_test_attr(mod_node.prev_sibling)
 
